@@ -787,8 +787,51 @@ fn finish_run<P: std::ops::Deref<Target = RecStore>>(ctx: &Ctx, rec: &mut Rec, t
 	rec.case(&format!("recover {}", tag), &ans, &format!("{}:recover:{}", class, kind), true);
 	rec.case(&format!("keys {}", tag), &store_keys(store), &format!("{}:keys", class), false);
 	o.lines += 2;
+	// r6: recovery through a persister built with a DIFFERENT maximum_pending_updates than the writer's
+	// (it is a constructor argument, not something stored; 0 = "update writing disabled"). The store may
+	// hold update entries above the stored full monitor, each of which was reported Completed.
+	{
+		let wm = persister_max_pending(class);
+		let rm: u64 = if wm == 0 { [3u64, 1][(o.total_ops % 2) as usize] } else if o.total_ops % 4 == 3 { wm + 1 } else { 0 };
+		let bc = DummyB; let fe = DummyF; let lg = NullLogger;
+		let reader = MonitorUpdatingPersister::new(store, &lg, rm, ctx.keys, ctx.keys, &bc, &fe);
+		let r2 = guarded(AssertUnwindSafe(|| reader.read_all_channel_monitors_with_updates()));
+		let ans2 = match &r2 {
+			Ok(Ok(l)) => { let mut v: Vec<String> = l.iter().map(|(_, m)| format!("{}:{}", m.persistence_key(), m.get_latest_update_id())).collect(); v.sort(); format!("ok {}", if v.is_empty() { "-".to_string() } else { v.join(",") }) },
+			Ok(Err(_)) => "err".to_string(),
+			Err(_) => "panic".to_string(),
+		};
+		// what the store holds: id of the stored full monitor and the number of update entries above it
+		let (stored_id, pending): (Option<u64>, usize) = {
+			let kv = store.i.lock().unwrap().kv.clone();
+			let sid = kv.iter().find(|e| e.0 .0 == "monitors" && e.0 .2 == name_s).and_then(|e| { let d = describe(ctx, "monitors", &e.1); d.rsplit(":m").next().and_then(|x| x.parse::<u64>().ok()) });
+			let pend = match sid { Some(id) => kv.iter().filter(|e| e.0 .0 == "monitor_updates" && e.0 .1 == name_s && e.0 .2.parse::<u64>().map(|u| u > id).unwrap_or(false)).count(), None => 0 };
+			(sid, pend)
+		};
+		let snaps = snaps_ref.unwrap_or(&o.snaps);
+		let mut kind2 = "no-claim";
+		if o.started {
+			if let Ok(Ok(l)) = &r2 {
+				let reported = decode_mon(ctx, &snaps[o.completed.min(snaps.len() - 1)]).map(|m| m.get_latest_update_id());
+				match (l.iter().find(|(_, m)| m.persistence_key().to_string() == name_s), reported) {
+					(Some((_, m)), Some(y)) => {
+						let x = m.get_latest_update_id();
+						if x < y { kind2 = "VIOLATION"; rec.oracle_fail(format!("recovered monitor {} is at update id {} although update {} had been reported persisted (writer m={}, reader m={}; store holds the full monitor at {:?} and {} update entries above it; {})", name_s, x, y, wm, rm, stored_id, pending, fault)); } else { kind2 = "includes-reported"; }
+					},
+					(None, Some(y)) => { kind2 = "VIOLATION"; rec.oracle_fail(format!("recovered monitor {} is missing from a successful recovery although update {} had been reported persisted (writer m={}, reader m={}; {})", name_s, y, wm, rm, fault)); },
+					_ => {},
+				}
+			}
+		}
+		rec.case(&format!("recoverm {} {}", rm, tag), &ans2, &format!("{}:recoverm:{}", class, kind2), true);
+		*rec.classes.entry(format!("recover:reader-m={}:pending-updates{}", if rm == 0 { "0" } else { "other" }, if pending > 0 { ">0" } else { "=0" })).or_insert(0) += 1;
+		o.lines += 1;
+	}
 	o
 }
+
+/// the writer's maximum_pending_updates, from the class prefix `N<m>:`
+fn persister_max_pending(class: &str) -> u64 { class.trim_start_matches('N').split(':').next().and_then(|x| x.parse().ok()).unwrap_or(0) }
 
 fn harvest(ctx_out: &mut Vec<(Hist, &'static TestKeysInterface)>, n_payments: usize, rng: &mut Rng) {
 	// everything is leaked on purpose: Node::drop & friends assert on a drained network, which a
